@@ -17,6 +17,7 @@ import PtaProofs.Lemmas.RuleErrors
 import PtaProofs.Lemmas.Build
 import PtaProofs.Lemmas.BuildNames
 import PtaProofs.Lemmas.EntryPoint
+import PtaProofs.Lemmas.DiagramRepair
 namespace Pta.C13M
 open Pta PtaSpec
 
@@ -954,44 +955,65 @@ theorem pumlParse_ok_props (c : Str) (p : Parsed') (h : pumlParse c = .ok p) :
         fun v hv => hmods _ (.inr (List.mem_flatMap.2 ⟨kv, hkv, hv⟩))⟩
     · cases h
 
-/-- **absent component, on a diagram file**: the file parses, it draws at least two components, and one of them (with
-    the base module prefixed) is not a node of the graph -/
+/-- the check of the repair of F-C13c in terms of `withBase`: some component, base module prefixed, is not a node -/
+theorem diagramMissing_prefix_iff (p : Parsed') (base : Option Str) (g : PGraph Str) :
+    diagramMissing (prefixParsed p base) g = true ↔ ∃ m ∈ p.modules, g.hasNode (withBase base m) = false := by
+  rw [Pta.Repair.diagramMissing_true_iff, prefixParsed_modules]
+  constructor
+  · rintro ⟨m', hm', hn⟩
+    obtain ⟨m, hm, rfl⟩ := List.mem_map.1 hm'
+    exact ⟨m, hm, hn⟩
+  · rintro ⟨m, hm, hn⟩
+    exact ⟨_, List.mem_map_of_mem hm, hn⟩
+
+/-- **absent component, on a diagram file** (after the repair of F-C13c): the file parses and one of the components it
+    draws (with the base module prefixed) is not a node of the graph — whatever else the file draws -/
 theorem diagram_file_unknown_component_lemma (mt : Str → Str → Bool) (g : PGraph Str) (so : Bool) (c : Str)
     (base : Option Str) (p : Parsed') (hp : pumlParse c = .ok p) (m : Str) (hm : m ∈ p.modules)
-    (h2 : 2 ≤ p.modules.length) (habs : g.hasNode (withBase base m) = false) :
-    diagramAssert mt (some c) base so g = .err .lookupError := by
-  obtain ⟨hok, hnd, _⟩ := pumlParse_ok_props c p hp
-  unfold diagramAssert
-  simp only [hp]
-  refine diagram_unknown_component_base_lemma mt g so p base (fun kv hkv => (hok.2 kv hkv).2) m (.inl ⟨hm, ?_⟩) habs
-  -- two entries of a duplicate-free list: one of them is not `m`
-  cases hl : p.modules with
-  | nil => rw [hl] at h2; simp at h2
-  | cons a t =>
-    cases t with
-    | nil => rw [hl] at h2; simp at h2
-    | cons b t' =>
-      rw [hl] at hnd
-      have hab : a ≠ b := by
-        intro e; subst e
-        simp at hnd
-      by_cases ha : a = m
-      · exact ⟨b, by simp, fun e => hab (by rw [ha, e])⟩
-      · exact ⟨a, by simp, ha⟩
+    (habs : g.hasNode (withBase base m) = false) :
+    diagramAssert mt (some c) base so g = .err .lookupError :=
+  Pta.Repair.diagramAssert_of_missing mt g so c base p hp ((diagramMissing_prefix_iff p base g).2 ⟨m, hm, habs⟩)
 
-/-- the exact statement on a diagram file that parses -/
+/-- the exact statement on a diagram file that parses (after the repair of F-C13c): the lookup error iff some component
+    (base module prefixed) is not a node of the graph; no other error -/
 theorem diagram_file_lookup_iff_lemma (mt : Str → Str → Bool) (g : PGraph Str) (so : Bool) (c : Str)
     (base : Option Str) (p : Parsed') (hp : pumlParse c = .ok p) :
-    (diagramAssert mt (some c) base so g = .err .lookupError ↔ ∃ m, Checked p m ∧ g.hasNode (withBase base m) = false) ∧
+    (diagramAssert mt (some c) base so g = .err .lookupError ↔ ∃ m ∈ p.modules, g.hasNode (withBase base m) = false) ∧
     (∀ k, diagramAssert mt (some c) base so g = .err k → k = .lookupError) := by
-  obtain ⟨hok, _, _⟩ := pumlParse_ok_props c p hp
-  have := diagram_lookup_iff_base_lemma mt g so p base (fun kv hkv => (hok.2 kv hkv).2)
-  unfold diagramAssert
-  simp only [hp]
-  exact this
+  obtain ⟨hok, _, hin⟩ := pumlParse_ok_props c p hp
+  obtain ⟨h1, h2⟩ := diagram_lookup_iff_base_lemma mt g so p base (fun kv hkv => (hok.2 kv hkv).2)
+  cases hmiss : diagramMissing (prefixParsed p base) g with
+  | true =>
+    rw [Pta.Repair.diagramAssert_of_missing mt g so c base p hp hmiss]
+    refine ⟨⟨fun _ => (diagramMissing_prefix_iff p base g).1 hmiss, fun _ => rfl⟩, ?_⟩
+    intro k hk
+    cases hk; rfl
+  | false =>
+    rw [Pta.Repair.diagramAssert_of_noMissing mt g so c base p hp hmiss]
+    refine ⟨⟨fun h => ?_, fun h => ?_⟩, h2⟩
+    · -- every checked component is a component
+      obtain ⟨m, hc, hn⟩ := h1.1 h
+      refine ⟨m, ?_, hn⟩
+      rcases hc with ⟨hm, _⟩ | ⟨kv, hkv, rfl | hv⟩
+      · exact hm
+      · exact (hin kv hkv).1
+      · exact (hin kv hkv).2 m hv
+    · have := (diagramMissing_prefix_iff p base g).2 h
+      rw [hmiss] at this
+      cases this
 
-/-- the boundary: a diagram that draws one component and no arrow generates no rule, nothing is looked up, the check
-    passes whatever the graph is -/
+/-- before the repair (`diagramAssertBeforeRepair`): only the components the generated rules name were looked up -/
+theorem diagram_file_lookup_iff_before_repair_lemma (mt : Str → Str → Bool) (g : PGraph Str) (so : Bool) (c : Str)
+    (base : Option Str) (p : Parsed') (hp : pumlParse c = .ok p) :
+    (diagramAssertBeforeRepair mt (some c) base so g = .err .lookupError ↔
+      ∃ m, Checked p m ∧ g.hasNode (withBase base m) = false) ∧
+    (∀ k, diagramAssertBeforeRepair mt (some c) base so g = .err k → k = .lookupError) := by
+  obtain ⟨hok, _, _⟩ := pumlParse_ok_props c p hp
+  rw [Pta.Repair.diagramAssertBeforeRepair_ok mt g so c base p hp]
+  exact diagram_lookup_iff_base_lemma mt g so p base (fun kv hkv => (hok.2 kv hkv).2)
+
+/-- the boundary of the rule batch: a diagram that draws one component and no arrow generates no rule, the batch looks
+    nothing up and passes whatever the graph is (the repaired `diagramAssert` checks the components before the batch) -/
 theorem diagram_single_component_lemma (mt : Str → Str → Bool) (g : PGraph Str) (so : Bool) (m : Str) (base : Option Str) :
     diagramRules so (prefixParsed ⟨[m], []⟩ base) = [] ∧
     applyAll mt g (diagramRules so (prefixParsed ⟨[m], []⟩ base)) = .pass := by
